@@ -84,7 +84,12 @@ try:
     for c in (a.checks.split(",") if a.checks else [a.prop]):
         r = subprocess.run("./check %s %s" % (c, a.tier), shell=True, cwd="/verif", env=env, capture_output=True, text=True)
         viol = [l for l in (r.stdout + r.stderr).splitlines() if l.startswith("VIOLATION")]
-        sigs = sorted(set(re.findall(r"sig=(\S+)", "\n".join(viol))))
+        sigs = set()
+        for l in viol:
+            m = re.search(r"replay=(\S+)", l)
+            try: sigs.add(json.load(open(m.group(1))).get("sig", "?"))
+            except Exception: pass
+        sigs = sorted(sigs)
         print("check %s %s: exit %d, %d VIOLATION lines, sigs: %s" % (c, a.tier, r.returncode, len(viol), sigs[:8]))
         if r.returncode not in (0, 1): print((r.stdout + r.stderr)[-2500:])
         results["%s/%s" % (c, a.tier)] = {"exit": r.returncode, "violations": len(viol), "sigs": sigs[:12]}
